@@ -507,9 +507,124 @@ def rule_no_dropped_states(ck, facts):
     ck.floor(R, "evaluation_results_tracked", n, 40)
 
 
+def _acc_assignments(f):
+    """(stmt, field, class) for every assignment to ContextData::push_sum / next_state_offset in f.
+    class: const | none | some | accumulate | restore | computed"""
+    out = []
+    di = None
+    for b, st in f.all_stmts():
+        if st[KIND] != "a" or not st[4][1]:
+            continue
+        fl = place_fields(st[4])
+        if not (fl and fl[-1] and (fl[-1].endswith("ContextData::push_sum") or fl[-1].endswith("ContextData::next_state_offset"))):
+            continue
+        field = fl[-1].rsplit("::", 1)[1]
+        di = di or DefIndex(f)
+        rv = st[5]
+        cls = "computed"
+        if rv[0] == "use":
+            op = rv[1]
+            if op[0] == "c":
+                cls = "const"
+            else:
+                pl = op[1]
+                if pl[1] and pl[1][-1][0] == "f" and not [x for x in place_fields(pl) if x and "::" in x]:
+                    # (checked add).0
+                    r = di.resolve(["cp", [pl[0], []]])
+                    if r[0] == "rv" and r[1][5][0] == "bin" and r[1][5][1] in ("add", "add_ov"):
+                        ops = r[1][5][2:4]
+                        if any(o[0] in ("cp", "mv") and (place_fields(o[1]) or [None])[-1] and place_fields(o[1])[-1].endswith("ContextData::" + field) for o in ops):
+                            cls = "accumulate"
+                else:
+                    r = di.resolve(op)
+                    if r[0] == "rv" and r[1][5][0] == "agg" and r[1][5][1][0] == "adt" and r[1][5][1][1].endswith("Option"):
+                        cls = "none" if r[1][5][1][3] == "None" else "some"
+                    elif r[0] == "place" and (place_fields(r[1]) or [None])[-1] and place_fields(r[1])[-1].endswith("ContextData::" + field):
+                        cls = "restore"
+                    elif r[0] == "rv" and r[1][5][0] == "use" and r[1][5][1][0] in ("cp", "mv") and (place_fields(r[1][5][1][1]) or [None])[-1] and place_fields(r[1][5][1][1])[-1].endswith("ContextData::" + field):
+                        cls = "restore"
+                    elif r[0] == "const":
+                        cls = "const"
+        out.append((st, field, cls))
+    return out
+
+
+def rule_branch_accounting(ck, facts):
+    R = "C05.branch-accounting"
+    ck.rule(R, "the MIR generator counts state-offset pushes in one per-function sum (popped once at the function end), which equals the run-time displacement only if every alternative of a branch leaves the position where it found it: (isolated) every function that builds a JmpIf / Switch and evaluates sub-expressions restores ContextData::push_sum around the alternatives (itself or through a helper that does); (no-reset) push_sum / next_state_offset are never overwritten with a constant (that forgets the pushes and the pending offset of the code before the branch)")
+    lang = facts.crate(roles.LANG)
+    mg = [f for f in lang.fns if "::compiler::mirgen::" in f.path and f.kind != "promoted" and not roles.is_derived(f)]
+    producers = {f.path for f in mg if f.kind in ("assoc", "fn", "closure") and states_result(f)}
+    acc = {f.path: _acc_assignments(f) for f in mg}
+    restoring = {p for p, lst in acc.items() if any(fld == "push_sum" and cls == "restore" for _, fld, cls in lst)}
+    # (no-reset)
+    n_assign = 0
+    for f in mg:
+        for st, fld, cls in acc[f.path]:
+            n_assign += 1
+            root = f.root.split("::", 1)[1].split("::")[-1]
+            if (fld == "push_sum" and cls == "const") or (fld == "next_state_offset" and cls in ("none", "const")):
+                ck.bad(R, "reset|%s|%s" % (root, fld), "%s overwrites ContextData::%s with a constant: the offsets pushed (and the offset still pending) for the cells evaluated before this point are forgotten, so the cells evaluated next are placed on top of them and the function-end pop no longer matches the pushes" % (f.short, fld), f.where(st))
+            else:
+                ck.ok(R, "assign|%s|%s|%s" % (root, fld, cls))
+    ck.floor(R, "accounting_assignments", n_assign, 5)
+    # (isolated)
+    sites = []
+    for f in mg:
+        for b, st in f.all_stmts():
+            if st[KIND] == "a" and st[5][0] == "agg" and st[5][1][0] == "adt" and st[5][1][1] == roles.MIR_INSTR and st[5][1][3] in ("JmpIf", "Switch", "JmpTable"):
+                sites.append((f, b, st))
+    ck.floor(R, "branching_instruction_sites", len(sites), 4)
+    byroot = {}
+    for f in mg:
+        byroot.setdefault(f.root, []).append(f)
+    for f, b, st in sites:
+        cov = cover.coverage(facts, f, roles.EXPR)
+        arm = None
+        if cov and len(cov.primary_handled()) > 5:
+            vs = [v for v in cov.primary_handled() if cov.arm_target(v) is not None and b in reachable(f, cov.arm_target(v), stop=[cov.primary.block])]
+            arm = "/".join(sorted(vs)) or None
+            region = set()
+            for v in vs:
+                region |= set(reachable(f, cov.arm_target(v), stop=[cov.primary.block]))
+            members = [(f, region)]
+            # closures created inside the arm
+            for bb in region:
+                for s2 in f.stmts(bb):
+                    if s2[KIND] == "a" and s2[5][0] == "agg" and s2[5][1][0] == "closure":
+                        g = facts.fn(s2[5][1][1])
+                        if g is not None:
+                            members.append((g, None))
+        else:
+            members = [(g, None) for g in byroot.get(f.root, [f])]
+        evals = 0
+        isolated = False
+        for g, reg in members:
+            for bb, t in g.calls():
+                if reg is not None and bb not in reg:
+                    continue
+                c = callee(t) or ""
+                if c in producers:
+                    evals += 1
+                if c in restoring and c not in producers:
+                    isolated = True
+            for s2, fld, cls in acc.get(g.path, []):
+                if fld == "push_sum" and cls == "restore":
+                    # inside the region?
+                    if reg is None or any(s2 in g.stmts(bb) for bb in reg):
+                        isolated = True
+        key = "isolated|%s|%s" % (f.short.split("::")[-1], arm or st[5][1][3])
+        if evals == 0:
+            ck.ok(R, key, {"evaluations": 0})
+        elif isolated:
+            ck.ok(R, key, {"evaluations": evals, "push_sum": "restored per alternative"})
+        else:
+            ck.bad(R, key, "%s%s builds a %s and evaluates %d sub-expression(s) for its alternatives without restoring ContextData::push_sum between them: the offsets pushed by one alternative are counted as if every run executed them, so a later alternative starts from the wrong position and the single pop at the function end does not match the pushes of the path taken (cursor not back at the origin, cells outside the published layout)" % (f.short, (" (arm %s)" % arm) if arm else "", st[5][1][3], evals), f.where(st))
+
+
 def rule_accounting(ck, facts):
     R = "C05.accounting"
-    ck.rule(R, "every construction of Instruction::PushStateOffset(n) in the MIR generator happens on a path that also adds n to ContextData.push_sum (the amount popped at function exit); PopStateOffset is emitted with push_sum")
+    ck.rule(R, "every construction of Instruction::PushStateOffset(n) in the MIR generator happens on a path that also adds n to ContextData.push_sum (the amount popped at function exit); PopStateOffset is emitted with push_sum (function end) or with the difference to a saved push_sum that is then written back (end of a branch alternative)")
     lang = facts.crate(roles.LANG)
     n = 0
     for f in lang.fns:
@@ -537,7 +652,7 @@ def rule_accounting(ck, facts):
                 ck.ok(R, "push|%s" % root, {"fn": root, "sites": len(lst)})
             else:
                 ck.bad(R, "push|%s|x%d" % (root, len(lst)), "%s emits PushStateOffset at %d site(s) without adding the amount to push_sum: the cursor advance is not undone by the PopStateOffset(push_sum) at function exit (state cursor drifts / underflows)" % (root, len(lst)), ", ".join(ff.where(ss) for ff, ss in lst))
-    ck.floor(R, "push_state_offset_sites", n, 3)
+    ck.floor(R, "push_state_offset_sites", n, 1)
     # the pop uses push_sum
     pops = []
     for f in lang.fns:
@@ -548,13 +663,24 @@ def rule_accounting(ck, facts):
                 di = DefIndex(f)
                 r = di.resolve(s[5][2][0])
                 src = repr(r)
-                pops.append((f, s, "push_sum" in src))
-    ck.floor(R, "pop_state_offset_sites", len(pops), 1)
+                ok = "push_sum" in src
+                if not ok:
+                    # branch-local pop: (push_sum - saved) where saved was read from push_sum and is written back
+                    rr = r
+                    if rr[0] == "place" and rr[1][1] and rr[1][1][-1][0] == "f":
+                        rr = di.resolve(["cp", [rr[1][0], []]])
+                    if rr[0] == "rv" and rr[1][5][0] == "bin" and rr[1][5][1] in ("sub", "sub_ov"):
+                        a, b2 = rr[1][5][2], rr[1][5][3]
+                        ra, rb = repr(di.resolve(a)), repr(di.resolve(b2))
+                        restores = [1 for _, fld, cls in _acc_assignments(f) if fld == "push_sum" and cls == "restore"]
+                        ok = "push_sum" in ra and "push_sum" in rb and bool(restores)
+                pops.append((f, s, ok))
+    ck.floor(R, "pop_state_offset_sites", len(pops), 2)
     for f, s, ok in pops:
         if ok:
             ck.ok(R, "pop|%s" % f.short)
         else:
-            ck.bad(R, "pop|%s" % f.short, "%s emits PopStateOffset with an amount that is not the accumulated push_sum" % f.short, f.where(s))
+            ck.bad(R, "pop|%s" % f.short, "%s emits PopStateOffset with an amount that is neither the accumulated push_sum nor its increase since a saved value that is restored afterwards" % f.short, f.where(s))
 
 
 def rule_cursor(ck, facts):
@@ -602,6 +728,7 @@ def run(ck, facts, tier):
     rule_cell_operand(ck, facts)
     rule_no_dropped_states(ck, facts)
     rule_accounting(ck, facts)
+    rule_branch_accounting(ck, facts)
     rule_cursor(ck, facts)
     prims.rule_site_table(ck, facts, "C05.site-table")
     ck.not_decided("that the cursor value at each access equals the layout's offset on a run; VM/WASM flat state-word equality; `cursor back at origin after dsp` as a run-time fact")
